@@ -145,6 +145,16 @@ func init() {
 					tr.Profile = "C17"
 					return c17UpgradeExec(tr)
 				}
+				if id == "C05" && seed%10 == 9 {
+					// solvency and pool bounds across the v1.2.0 upgrade (it rewrites and splits pools)
+					tr := c16Trace(seed)
+					var x c16Extra
+					_ = jsonUnmarshal(tr.Extra, &x)
+					x.C05Upgrade = true
+					tr.Extra = mustJSON(x)
+					tr.Profile = "C05"
+					return c05UpgradeExec(tr)
+				}
 				return vestRunSeed(id, seed, tier)
 			},
 			Replay: func(tr *kernel.Trace) *Outcome {
@@ -152,26 +162,31 @@ func init() {
 				if id == "C17" && len(tr.Extra) > 0 && jsonUnmarshal(tr.Extra, &x) == nil && x.C17Upgrade {
 					return c17UpgradeExec(tr)
 				}
+				if id == "C05" && len(tr.Extra) > 0 && jsonUnmarshal(tr.Extra, &x) == nil && x.C05Upgrade {
+					return c05UpgradeExec(tr)
+				}
 				return vestReplay(id, tr)
 			},
-			Real:     vestReal, Stub: vestStub, Assumes: assumes, FaultKinds: faultKinds,
+			Real: vestReal, Stub: vestStub, Assumes: assumes, FaultKinds: faultKinds,
 		})
 	}
+	// F-upgrade applies to C05 and C17 only (their upgrade sub-profiles)
 	fk := []string{"F-clock (exact lock-end / vesting boundary hits, 1 ns around, long jumps)", "F-order (interleaved valid and rejected messages, both delivery routes)", "F-malformed (boundary amounts: 0, exact remainder, remainder+1, balance+1; duplicate names; unknown types; existing/blocked recipients)",
 		"F-crash (every fifth run: the node dies before Commit or at the k-th write of the commit batch in ~15% of the blocks, restarts over the surviving disk and re-executes the block; all oracles continue on the recovered node)",
 		"F-simulate + F-rollback (every fifth run: a quarter of the transactions are only handed to the Simulate service, or are a governance execution [parameter update, failing message] that x/gov drops as a whole; nothing of either may stick)",
 		"F-export (every fifth run: after ~8% of the blocks the genesis is exported and a fresh node is initialised from it; the oracles continue, vesting types are judged by what was configured at genesis)"}
 	reg("C05", "one run = a generated world (4-8 clients, 1-4 vesting types, optional genesis pools and genesis vesting accounts) driven for 10-30 blocks with up to 5 vesting messages per block; "+
-		"after every message and every BeginBlock: module balance == sum of pool remainders, pool bounds, legality of every pool change (M-vest), and byte-identical vesting store/balances/accounts after a rejected message. "+
-		"non-trivial = the run has both accepted and rejected messages; distinct = hash of message kinds x routes, probes and outcome", fk, []string{"fees are zero in this profile; rejected signed transactions may still bump the signer's sequence (ante handler)"})
+		"after every message and every BeginBlock: module balance == sum of pool remainders, pool bounds, legality of every pool change (M-vest), and byte-identical vesting store/balances/accounts after a rejected message; governance now and then tries to change the vesting denomination (refused while pools exist); "+
+		"every tenth run is the upgrade sub-profile: a generated pre-upgrade store in the v1.1.0 layout, the real v1.2.0 handler run by x/upgrade, solvency and pool bounds of every pool afterwards. "+
+		"non-trivial = the run has both accepted and rejected messages; distinct = hash of message kinds x routes, probes and outcome", append(append([]string{}, fk...), "F-upgrade (every tenth run: real v1.2.0 handler over a rewritten pre-upgrade store, with F-crash in the preparing and the upgrading block)"), []string{"fees are zero in this profile; rejected signed transactions may still bump the signer's sequence (ante handler)"})
 	reg("C06", "same world; create-pool/withdraw/send heavy workload with block times targeted exactly at, 1 ns before and after lock ends; per explicit withdrawal: every matured pool emptied, owner paid exactly the matured remainders, "+
 		"repeated withdrawal pays 0, pool query evaluated on the same block's context agrees per pool. non-trivial = accepted and rejected messages present; distinct = hash of message kinds x routes, probes, outcome", fk, nil)
 	reg("C08", "same world; send/create-vesting-account heavy workload; per accepted send: recipient new, continuous vesting account, holds exactly the amount, original vesting = floor(amount*(1-free)) in exact rationals, schedule per restart flag, sent counter +amount; "+
 		"per accepted direct creation: exact coins, original vesting = coins, given times. distinct = hash of message kinds x routes, probes, outcome", fk, []string{"send without restart after the pool's lock end: start = max(lock end, block time) is accepted (the account is fully vested either way)"})
 	reg("C09", "same world plus cfesignature account creation through the module's message server; byte snapshot of every x/auth account before each custom message; afterwards each pre-existing account is identical except the tx signer's sequence/first-use public key and the reduction of the sender's own original vesting by a split/move it sent. "+
 		"distinct = hash of message kinds x routes, probes, outcome", fk, nil)
-	reg("C17", "same world; send/split/move/delegate heavy workload building chains; trace list must equal the lineage model after every message; both summary queries equal sums recomputed from bank LockedCoins, account vesting coins and pool records. "+
-		"distinct = hash of message kinds x routes, probes (lineage depth >= 2, delegated vesting present), outcome", fk, nil)
+	reg("C17", "same world; send/split/move/delegate heavy workload building chains; trace list must equal the lineage model after every message; both summary queries equal sums recomputed from bank LockedCoins, account vesting coins and pool records; every tenth run is the upgrade sub-profile (pre-upgrade store in the v1.1.0 layout, real v1.2.0 handler): the handler's own lineage-flagging step, run once more on the upgraded store in a throw-away context, may not change any trace. "+
+		"distinct = hash of message kinds x routes, probes (lineage depth >= 2, delegated vesting present), outcome", append(append([]string{}, fk...), "F-upgrade (every tenth run: real v1.2.0 handler over a rewritten pre-upgrade store)"), nil)
 }
 
 // c17UpgradeExec runs the upgrade world of C16 and keeps the lineage verdicts only.
@@ -185,5 +200,20 @@ func c17UpgradeExec(tr *kernel.Trace) *Outcome {
 	}
 	o.Violations = keep
 	o.Stats.Inc("probe.lineage_checked_across_upgrade")
+	return o
+}
+
+// c05UpgradeExec runs the upgrade world of C16 and keeps the solvency and pool-bound verdicts only.
+func c05UpgradeExec(tr *kernel.Trace) *Outcome {
+	o := c16Replay(tr)
+	var keep []*kernel.Violation
+	for _, v := range o.Violations {
+		if v.Check == "solvency" {
+			v.Property = "C05"
+			keep = append(keep, v)
+		}
+	}
+	o.Violations = keep
+	o.Stats.Inc("probe.solvency_checked_across_upgrade")
 	return o
 }
